@@ -1,5 +1,7 @@
 // src/algorithms/myers.rs
 verus! {
+pub mod myers {
+use super::*;
 
 //@@ item src/algorithms/myers.rs :: ^struct V\b rw=R7
 struct V {
@@ -404,4 +406,5 @@ where
 }
 //@@ end
 
+} // mod myers
 } // verus!
